@@ -55,6 +55,11 @@ class Child:
 @dataclass
 class Derived(Child):
     w: Optional[str] = field(default=None, metadata={"type": "Element"})
+
+
+@dataclass
+class Derived2(Derived):
+    z: Optional[int] = field(default=None, metadata={"type": "Element"})
 ''',
     "NsChild": '''
 @dataclass
@@ -391,7 +396,7 @@ def gen_field(ch: Chooser, i: int, frozen: bool, cats: list[str], scalar_keys: l
             tags.add("sequence")
         if cls == "Child":
             helpers.append("Derived")
-            vals = ["Child(v='a')", "Child()", "Child(v='', a=5)", "Derived(v='a', w='b')", "Derived()"]
+            vals = ["Child(v='a')", "Child()", "Child(v='', a=5)", "Derived(v='a', w='b')", "Derived()", "Derived2(v='a', z=7)"]
             tags.add("xsi")
         elif cls == "NsChild":
             vals = ["NsChild(v='a')", "NsChild()", "NsChild(q=QName('{urn:c}z'))", "NsChild(v='b', q=QName('{urn:q}y'))"]
@@ -548,12 +553,24 @@ CATS_ALL = ["element", "attribute", "text", "model", "union", "anytype", "elemen
 
 
 def gen_model(ch: Chooser, max_fields: int, cats: list[str] | None = None, scalar_keys: list[str] | None = None,
-              class_opts: bool = True) -> ModelSpec:
+              class_opts: bool = True, twin: bool = False) -> ModelSpec:
     cats = cats or CATS_ALL
     scalar_keys = scalar_keys or SCALAR_KEYS
     n = 1 + ch.choose(max_fields, "nfields")
     frozen = ch.flag("frozen") if class_opts else False
     fields = [gen_field(ch, i, frozen, cats, scalar_keys) for i in range(n)]
+    if twin:
+        # the same field once more under another name: two fields that are both non-default in the same ways (two lists of one
+        # sequence group, two nillable unions, ...) without paying for every answer twice
+        import copy
+        if n != 1:
+            raise Prune("twins are made of single-field models")
+        t = copy.deepcopy(fields[0])
+        t.name = "f1"
+        for key in ("name", "wrapper"):
+            if key in t.meta:
+                t.meta[key] = repr(eval(t.meta[key]) + "2")  # noqa: S307 - our own literal
+        fields.append(t)
     spec = ModelSpec(fields, frozen=frozen)
     if class_opts:
         spec.meta_ns = ch.pick([None, NS_M, ""], "meta_ns")
@@ -698,7 +715,9 @@ def wild_values(spec: ModelSpec, f: FieldSpec) -> list[str]:
         raise Prune("wildcard admits nothing from the alphabet")
     frozen = spec.frozen
     if variant == "single":
-        return [pool[0], "None"] + pool[1:3] + (["Other(x=1)"] if "Other(x=1)" in pool else [])
+        # several sibling elements under one single-valued wildcard are held by an anonymous generic element
+        several = [f"AnyElement(children=[{pool[0]}, {pool[1]}])"] if len(pool) > 1 else []
+        return [pool[0], "None"] + pool[1:3] + several + (["Other(x=1)"] if "Other(x=1)" in pool else [])
     if variant == "list":
         return _listvals(pool, frozen)
     # mixed: text interleaved with elements
@@ -717,7 +736,7 @@ def field_values(spec: ModelSpec, f: FieldSpec) -> list[str]:
     return f.values
 
 
-def enumerate_models(bound: int, max_fields: int, cats=None, scalar_keys=None, class_opts=True) -> list[list[int]]:
+def enumerate_models(bound: int, max_fields: int, cats=None, scalar_keys=None, class_opts=True, twins: bool = False) -> list[list[int]]:
     """All model choice vectors with <= bound deviations (outer exploration)."""
     out: list[list[int]] = []
 
@@ -733,12 +752,27 @@ def enumerate_models(bound: int, max_fields: int, cats=None, scalar_keys=None, c
             out.append(ch.choices)
 
     explore(run, bound, on)
-    return out
+    # every single-field model once more as a pair of equal fields (vector + TWIN marker)
+    tw = []
+    for v in (out if twins else []):
+        # (a pair of fields with one non-default answer each is an ordinary two-field model within the bound already)
+        if max_fields >= 2 and v and v[0] == 0 and sum(1 for c in v if c) >= 2:
+            try:
+                gen_model(Chooser(v), max_fields, cats, scalar_keys, class_opts, twin=True)
+            except Prune:
+                continue
+            tw.append(list(v) + [TWIN])
+    return out + tw
+
+
+TWIN = -1
 
 
 def model_from_vector(vec: list[int], max_fields: int, cats=None, scalar_keys=None, class_opts=True) -> ModelSpec:
-    ch = Chooser(vec)
-    spec = gen_model(ch, max_fields, cats, scalar_keys, class_opts)
-    if ch.choices != list(vec):
+    twin = bool(vec) and vec[-1] == TWIN
+    base = list(vec[:-1]) if twin else list(vec)
+    ch = Chooser(base)
+    spec = gen_model(ch, max_fields, cats, scalar_keys, class_opts, twin=twin)
+    if ch.choices != base:
         raise HarnessError(f"model vector does not replay: {vec} -> {ch.choices}")
     return spec
